@@ -143,7 +143,10 @@ def run_session(spec):
                     cf.clear(warn=False)
                     r = {"ok": None}
                 elif a == "reduce":
-                    mem.reduce_size(items_limit=act.get("items_limit"), bytes_limit=act.get("bytes_limit"))
+                    import datetime
+                    age = act.get("age_s")
+                    mem.reduce_size(items_limit=act.get("items_limit"), bytes_limit=act.get("bytes_limit"),
+                                    age_limit=None if age is None else datetime.timedelta(seconds=age))
                     r = {"ok": None}
                 elif a == "atime":
                     c05_shim.pause()
